@@ -1,8 +1,8 @@
 (* SqlOracle.v — C06: the boolean oracle of SqlSpec.v reflects the
    specification: [storedb], [deletedb], [liveb], [live_list], the sortedness
-   and duplicate tests.  (The merge test [union_topn_ok] is validated by its
-   use on both sides of the correspondence and by the witnesses of
-   SqlPinned.v; its reflection lemma is not part of this development.) *)
+   and duplicate tests.  The reflection of the merge test [union_topn_ok] is in
+   SqlMerge.v ([union_topn_ok_spec], [query_specb_spec]); small hand-checked
+   instances are at the end of this file. *)
 From Moc Require Import Base Match Sql SqlSpec SqlLemmas.
 Open Scope Z_scope.
 
@@ -156,8 +156,7 @@ Example union_limit0_and_nolimit :
   union_topn_ok [([a9; b7], None)] None [a9] = false.
 Proof. vm_compute. repeat split; reflexivity. Qed.
 
-(** an outer limit that cannot bite is exact; one that can bite tests
-    necessary conditions only *)
+(** the outer limit (more instances in SqlMerge.v) *)
 Example union_outer_limit :
   union_topn_ok [([a9; b7; e5], None)] (Some 3) [a9; b7; e5] = true /\
   union_topn_ok [([a9; b7; e5], None)] (Some 3) [a9; b7] = false /\
